@@ -699,6 +699,10 @@ pub fn run_shell(cfg: ShellCfg) -> ShellResult {
     let stderr = file_content(&state, "/dev/stderr").unwrap_or_default();
     let events = EVENTS.with(|e| std::mem::take(&mut *e.borrow_mut()));
     STATE.with(|s| *s.borrow_mut() = None);
+    // The scheduler keeps unfinished tasks, which keep the state alive: break
+    // the cycle (outside the borrow: dropping a task may touch the state).
+    let executor = state.borrow_mut().executor.take();
+    drop(executor);
     ShellResult {
         outcome,
         status,
